@@ -107,6 +107,7 @@ pub const FIXED_ALGS: [&str; 12] = [
 pub type UBig256 = digest::generic_array::typenum::Sum<U8192, U8>;       // 8200  > 256 * 32
 pub type UBig512 = digest::generic_array::typenum::Sum<U16384, U9>;      // 16393 > 256 * 64
 pub type UBig1024 = digest::generic_array::typenum::Sum<U32768, U17>;    // 32785 > 256 * 128
+pub type UHuge = digest::generic_array::typenum::Sum<U65536, U39>;        // 65575 bytes: the bit count needs three bytes, the byte count more than 16 bits
 pub const SKEIN_N: [usize; 141] = [1, 2, 3, 4, 5, 6, 7, 8, 9, 10, 11, 12, 13, 14, 15, 16, 17, 18, 19, 20, 21, 22, 23, 24, 25, 26, 27, 28, 29, 30, 31, 32, 33, 34, 35, 36, 37, 38, 39, 40, 41, 42, 43, 44, 45, 46, 47, 48, 49, 50, 51, 52, 53, 54, 55, 56, 57, 58, 59, 60, 61, 62, 63, 64, 65, 66, 67, 68, 69, 70, 71, 72, 73, 74, 75, 76, 77, 78, 79, 80, 81, 82, 83, 84, 85, 86, 87, 88, 89, 90, 91, 92, 93, 94, 95, 96, 97, 98, 99, 100, 101, 102, 103, 104, 105, 106, 107, 108, 109, 110, 111, 112, 113, 114, 115, 116, 117, 118, 119, 120, 121, 122, 123, 124, 125, 126, 127, 128, 129, 130, 131, 132, 133, 134, 135, 136, 160, 200, 256, 257, 300];
 
 macro_rules! skein_arms {
@@ -141,6 +142,9 @@ pub fn make_hash(alg: &str, n: usize) -> Box<dyn Hx> {
         "Skein256" if n == 8200 => Some(Box::new(skein_hash::Skein256::<UBig256>::default())),
         "Skein512" if n == 16393 => Some(Box::new(skein_hash::Skein512::<UBig512>::default())),
         "Skein1024" if n == 32785 => Some(Box::new(skein_hash::Skein1024::<UBig1024>::default())),
+        "Skein256" if n == 65575 => Some(Box::new(skein_hash::Skein256::<UHuge>::default())),
+        "Skein512" if n == 65575 => Some(Box::new(skein_hash::Skein512::<UHuge>::default())),
+        "Skein1024" if n == 65575 => Some(Box::new(skein_hash::Skein1024::<UHuge>::default())),
         "Skein256" => skein_make!(Skein256, n),
         "Skein512" => skein_make!(Skein512, n),
         "Skein1024" => skein_make!(Skein1024, n),
@@ -335,6 +339,25 @@ pub fn drive_digests(out: &mut dyn std::io::Write, family: &str, seed: u64, thor
                     let m = message(&mut rng, l, n as u64);
                     digest_event(out, alg, n, &m, "outlen", cfg);
                 }
+            }
+        }
+        if family == "skein" && (thorough || ai == (seed as usize) % 3) {
+            // 65575 output bytes: recorded and validated as windows of output blocks (first, around block 256, last incl. the partial one)
+            let n = 65575usize;
+            let m = message(&mut rng, 9, 3);
+            let r = guarded(|| {
+                let mut h = make_hash(alg, n);
+                h.upd(&m);
+                h.fin()
+            });
+            let nblocks = (n + b - 1) / b;
+            for (blk, nblk) in [(0usize, 2usize), (255, 3), (nblocks - 2, 2)] {
+                let (res, total, win) = match &r {
+                    Ok(o) => ("ok".to_string(), o.len(), o[blk * b..std::cmp::min((blk + nblk) * b, o.len())].to_vec()),
+                    Err(p) => (format!("panic:{}", sanitize(p)), 0, vec![]),
+                };
+                Ev::new(0, "digestw").s("alg", alg).i("n", n as i64).s("tag", "hugeout").s("cfg", cfg).bytes("msg", &m).i("blk", blk as i64).i("nblk", nblk as i64)
+                    .i("total", total as i64).bytes("out", &win).s("res", &res).emit(out);
             }
         }
         if family == "skein" {
